@@ -53,10 +53,10 @@ def plan(tier, seed):
             pens = [p for p in info["penalties"] if any(
                 K.compatible(solver, df, p, "dense", False, st) for st in info["strategies"])]
             shards.append(dict(name="straddle/%s/%s" % (solver, df), solver=solver, datafit=df, penalties=pens[:4],
-                               reps={"quick": 3, "thorough": 25}[tier], straddle=True))
+                               reps={"quick": 2, "thorough": 25}[tier], straddle=True))
     for sv, df, pen in K.TOLSWEEP_FAMILIES:
         shards.append(dict(name="tolsweep/%s/%s/%s" % (sv, df, pen), solver=sv, datafit=df, penalties=[pen],
-                           reps={"quick": 2, "thorough": 12}[tier], tolsweep={"quick": 12, "thorough": 24}[tier]))
+                           reps={"quick": 1, "thorough": 12}[tier], tolsweep={"quick": 10, "thorough": 24}[tier]))
     return shards
 
 
